@@ -31,7 +31,7 @@ ASSUMPTIONS = ["frames are built by vp.ref.codec.ubx_frame (independent Fletcher
 def floors(tier):
     return {"accepted": 2000, "kind=exact": 300, "kind=short": 200, "kind=long": 200,
             "kind=empty": 200, "kind=random": 200, "id=undoc-id": 100, "id=unknown-class": 100,
-            "mode=SETPOLL": 300, "len>=256": 10, "after-checksum-twin": 300, "cfgval-items": 60}
+            "mode=SETPOLL": 300, "len>=256": 10, "after-checksum-twin": 300, "cfgval-items": 60, "long-zero-state": 40}
 
 
 def plan(tier, seed):
@@ -90,6 +90,21 @@ def run_shard(spec, ctx, acc):
             if G_min_size(t) >= 3:
                 core.hyp_search(acc, twin, check, seed=core.derive(ctx["seed"], PROP, "twin", t.label),
                                 max_examples=2 if tier == "quick" else 20, known=known, rounds=1)
+        # long payloads (several read/checksum blocks): sizes around multiples of 4096
+        # and payloads whose running checksum state is (0, 0) at every block boundary
+        if spec["name"] in ("s0", "s1", "s2", "s3"):
+            k0 = int(spec["name"][1:])
+            for k in range(1 + k0, 17, 4):
+                for n in (4096 * k - 4, 4096 * k - 2, 4096 * k):
+                    n = min(n, 65535)
+                    for blk in (4096, 16384):
+                        if n < blk:
+                            continue
+                        p = codec.zero_state_payload(b"\x04", b"\x02", n, blk, fill=k)
+                        case = _mk(b"\x04\x02", p, 0, 1, "long", "defined")
+                        o = check(case)
+                        o.classes = list(o.classes) + ["long-zero-state"]
+                        core.handle(acc, o, case, known)
         # undocumented IDs / unknown classes with arbitrary payloads
         odd = st.builds(
             lambda ck, p, mode, bf: _mk(ck[1], p, mode, bf, "random" if p else "empty", ck[0]),
